@@ -15,4 +15,5 @@ def run(ctx):
     fams = [("gen", "gen.idem", n), ("gen", "gen.idem1", n), lambda: pc.family_faults(True, ctx.seed), lambda: pc.family_gates(True),
             pc.family_idem_extra]
     mc = ["MCProducer.idem.cfg"] if ctx.tier == "quick" else ["MCProducer.idem.cfg", "MCProducer.idem2.cfg"]
-    return pc.check(ctx, "C05", fams, mc)
+    # the model itself exhibits the known duplicate-after-connection-loss finding: that run must violate NoDoubleAppend
+    return pc.check(ctx, "C05", fams, mc, extra_mc=[("MCProducer", "MCProducer.idemdup.cfg", "NoDoubleAppend")])
